@@ -36,6 +36,8 @@ type Entry struct {
 	LastUpdateSignatureVerifyFailed bool
 	LastUpdateSignature             *crlreader.CRLReadResult
 	Loaded                          bool
+	//set when the repository was closed, the store can not be used anymore
+	Closed bool
 	//only used temporary
 	Chains *core.CertificateChains
 }
@@ -283,6 +285,9 @@ func (R *Repository) checkCrl(certificate *x509.Certificate, identifier string) 
 	if repositoryEntry != nil {
 		repositoryEntry.entryLock.RLock()
 		defer repositoryEntry.entryLock.RUnlock()
+		if repositoryEntry.Closed {
+			return nil, fmt.Errorf("could not get revocation status from repository: crl repository was closed")
+		}
 		if repositoryEntry.Loaded {
 			if repositoryEntry.CRLStore == nil {
 				return nil, fmt.Errorf("could not get revocation status from repository: crl store is not available")
@@ -611,6 +616,12 @@ func (R *Repository) Close() {
 func (R *Repository) closeRepositoryEntry(entry *Entry, id string) {
 	entry.entryLock.Lock()
 	defer entry.entryLock.Unlock()
-	entry.CRLStore.Close()
-	R.crlRepository[id] = nil
+	if entry.Closed {
+		return
+	}
+	if entry.CRLStore != nil {
+		entry.CRLStore.Close()
+	}
+	//the entry stays in the repository: a lookup after shutdown must fail and not report 'not revoked'
+	entry.Closed = true
 }
